@@ -266,7 +266,8 @@ fn verif_c18_enumeration() {
         ("response_derives", vec!["Debug", "Debug, Clone", "PartialEq,Eq", "Serialize", "skip_serializing_none, normalization"]),
         ("variables_derives", vec!["Debug", "Clone,Debug", "Default"]),
         // (values that contain the words of flags and of other keys: a value is data, never an option)
-        ("custom_scalars_module", vec!["crate::scalars", "scalars", "super::scalars", "crate::skip_serializing_none", "fragments_other_variant::deprecated"]),
+        ("custom_scalars_module", vec!["crate::scalars", "scalars", "super::scalars", "crate::skip_serializing_none", "fragments_other_variant::deprecated",
+                                            "::serde_json", "::my_crate::scalars", "self::scalars"]),
         // values with a backslash: in a raw literal it is an ordinary character, never an escape
         ("fragments_other_variant", vec!["true", "false", "TRUE", "yes", "", "tru\\x65"]),
         ("deprecated", vec!["allow", "warn", "deny", "DeNy", "ALLOW", "bogus", "", "den\\x79", "al\\u{6c}ow"]),
